@@ -428,6 +428,10 @@ def binop(x, st, op, a: V, b: V, node, inplace=False):
         if a.k == "str" and b.k == "opq" or a.k == "opq" and b.k == "str":
             if x.mode == "frame":
                 return [(st, vstr(z3.Concat(x.as_str(a), x.as_str(b))))]
+        if "sseq" in (a.k, b.k) and not inplace:
+            sa, sb = to_sseq(x, st, a), to_sseq(x, st, b)
+            if sa is not None and sb is not None:
+                return [(st, V("sseq", z3.Concat(sa.t, sb.t)))]
         if a.k == "ref" and b.k == "ref":
             oa, ob = st.heap[a.t], st.heap[b.t]
             if isinstance(oa, HList) and isinstance(ob, HList):
@@ -580,7 +584,7 @@ def index(x, st, a: V, i: V, node):
         L = z3.Length(a.t)
         idx = z3.If(it < 0, L + it, it)
         return x.check_v(st, z3.And(-L <= it, it < L), "IndexError", node,
-                         lambda s: [(s, vstr(a.t[idx]))])
+                         lambda s: [(s, vstr(seq_nth(a.t, idx)))])
     if a.k == "tuple":
         c = x.const_of(i)
         if c is not None and isinstance(c[0], int):
@@ -959,6 +963,28 @@ def setattr_(x, st, recv: V, name: str, v: V, node):
     if recv.k == "opq" or x.mode == "frame":
         return
     raise OutOfReach(f"attribute assignment on {recv.k}.{name}")
+
+
+def seq_nth(t, i):
+    """t[i] for an index known to be in range, pushed through concatenation, unit and extraction so that the
+    solver sees element terms of the underlying sequences (z3 does not do this rewriting on its own)"""
+    k = t.decl().kind() if z3.is_app(t) else None
+    if k == z3.Z3_OP_SEQ_UNIT:
+        return t.arg(0)
+    if k == z3.Z3_OP_SEQ_CONCAT:
+        parts = list(t.children())
+        off = z3.IntVal(0)
+        offs = []
+        for p_ in parts:
+            offs.append(off)
+            off = off + z3.Length(p_)
+        r = seq_nth(parts[-1], i - offs[-1])
+        for p_, o in zip(reversed(parts[:-1]), reversed(offs[:-1])):
+            r = z3.If(i < o + z3.Length(p_), seq_nth(p_, i - o), r)
+        return r
+    if k == z3.Z3_OP_SEQ_EXTRACT:
+        return seq_nth(t.arg(0), t.arg(1) + i)
+    return t[i]
 
 
 def to_sseq(x, st, v: V):
